@@ -496,9 +496,24 @@ class Recorder:
         self._undo: List[Tuple[Any, str, Any]] = []
         self.inventory = inventory if inventory is not None else default_inventory()
         self.wrapped: List[str] = []
+        self.frames: Dict[int, list] = {}
         self.broken = False     # an unwinding exception made a load unreadable: the trace stops being comparable
 
     # -- helpers
+    def see(self, frame, where):
+        """Frames are shared mutable objects that GROW while they travel (every stamp adds bytes): per frame object the smallest and
+        the largest size seen at any send attempt / admission test / crossing, and the links it was offered to."""
+        try:
+            n = int(frame.size)
+        except Exception:
+            return
+        e = self.frames.get(id(frame))
+        if e is None or e[0] is not frame:
+            e = self.frames[id(frame)] = [frame, n, n, set()]
+        e[1], e[2] = min(e[1], n), max(e[2], n)
+        if where is not None:
+            e[3].add(where[0])
+
     def _wired_load(self, k: int) -> int:
         return exact_bytes(self.w.links[k].current_load)
 
@@ -532,10 +547,12 @@ class Recorder:
 
         def mk_send(wireless):
             def make(orig):
-                def send_frame(iface, frame):
+                def send_frame(iface, frame, *xa, **xk):
+                    # whatever else the caller hands over (an optional parameter the rig does not know) is passed on untouched
                     where = rec.w.chan_of(iface) if wireless else rec.w.link_of(iface)
                     if where is None:
-                        return orig(iface, frame)
+                        return orig(iface, frame, *xa, **xk)
+                    rec.see(frame, where if not wireless else None)
                     att = {"t": "W" if wireless else "S", "k": where[0], "end": where[1], "size0": int(frame.size), "sc": None, "can": None,
                            "sa": None, "acc": None, "tx": False, "children": [], "rcv": [], "enS0": bool(iface.enabled)}
                     if not wireless:
@@ -555,7 +572,7 @@ class Recorder:
                     rec.open.append(att)
                     rec.stack.append(att["children"])
                     try:
-                        r = orig(iface, frame)
+                        r = orig(iface, frame, *xa, **xk)
                     except BaseException:
                         # an exception is unwinding through this send: it never returns. Whatever completed inside it is kept.
                         rec.stack.pop()
@@ -621,17 +638,20 @@ class Recorder:
                 self.wrapped.append(f"{cname}.disable")
 
         def mk_can(orig):
-            def can_transmit_frame(link, frame):
+            def can_transmit_frame(link, frame, *xa, **xk):
                 exact = None
                 try:
                     exact = bool(link.endpoint_a.enabled and link.endpoint_b.enabled) and (
                         Fraction(link.current_load) + Fraction(frame.size_Mbits) <= Fraction(link.bandwidth))
                 except Exception:
                     pass
-                r = orig(link, frame)
+                r = orig(link, frame, *xa, **xk)
+                rec.see(frame, None)
                 if rec.open and rec.open[-1]["t"] == "S" and rec.open[-1]["sc"] is None:
                     att = rec.open[-1]
                     att["sc"] = int(frame.size)
+                    if xa or xk:
+                        att["handed"] = [repr(v)[:24] for v in list(xa) + list(xk.values())]
                     att["can"] = bool(r)
                     att["up"] = bool(link.endpoint_a.enabled and link.endpoint_b.enabled)
                     att["cap0"] = floor_bytes(link.bandwidth)
@@ -643,7 +663,8 @@ class Recorder:
         self._patch(Link, "can_transmit_frame", mk_can)
 
         def mk_tx(orig):
-            def transmit_frame(link, sender_nic, frame):
+            def transmit_frame(link, sender_nic, frame, *xa, **xk):
+                rec.see(frame, None)
                 att = rec.open[-1] if rec.open and rec.open[-1]["t"] == "S" else None
                 if att is not None:
                     other = link.endpoint_b if link.endpoint_a is sender_nic else link.endpoint_a
@@ -652,7 +673,7 @@ class Recorder:
                     att["enS"] = bool(sender_nic.enabled)
                     att["enR"] = bool(other.enabled)
                     att["far"] = far_query(other, frame)   # before the delivery: receive_frame decrements the TTL in place
-                r = orig(link, sender_nic, frame)
+                r = orig(link, sender_nic, frame, *xa, **xk)
                 if att is not None:
                     att["acc"] = bool(r)
                 return r
@@ -660,7 +681,7 @@ class Recorder:
         self._patch(Link, "transmit_frame", mk_tx)
 
         def mk_acan(orig):
-            def can_transmit_frame(air, frame, sender_network_interface):
+            def can_transmit_frame(air, frame, sender_network_interface, *xa, **xk):
                 exact = None
                 try:
                     hz = sender_network_interface.frequency.frequency_hz
@@ -668,7 +689,7 @@ class Recorder:
                              <= Fraction(air.get_frequency_max_capacity_mbps(sender_network_interface.frequency.name)))
                 except Exception:
                     pass
-                r = orig(air, frame, sender_network_interface)
+                r = orig(air, frame, sender_network_interface, *xa, **xk)
                 if rec.open and rec.open[-1]["t"] == "W" and rec.open[-1]["sc"] is None:
                     att = rec.open[-1]
                     att["sc"] = int(frame.size)
@@ -680,7 +701,7 @@ class Recorder:
         self._patch(AirSpace, "can_transmit_frame", mk_acan)
 
         def mk_atx(orig):
-            def transmit(air, frame, sender_network_interface):
+            def transmit(air, frame, sender_network_interface, *xa, **xk):
                 try:    # the rig's own account of the physical channel, before the implementation does anything
                     own = _OWN_AIR.setdefault(id(air), {})
                     hz0 = int(sender_network_interface.frequency.frequency_hz)
@@ -693,7 +714,7 @@ class Recorder:
                     att["sa"] = int(frame.size)
                     att["enS"] = bool(sender_network_interface.enabled)
                     att["acc"] = True
-                return orig(air, frame, sender_network_interface)
+                return orig(air, frame, sender_network_interface, *xa, **xk)
             return transmit
         self._patch(AirSpace, "transmit", mk_atx)
 
@@ -1525,13 +1546,16 @@ def run_impl(case: dict, inventory=None) -> dict:
             impl.append(dump(w))
         wrapped = list(rec.wrapped)
         runtime_inv = sorted(rec.runtime_inventory)
+        frame_windows = sorted({(k, e[1], e[2]) for e in rec.frames.values() for k in e[3]})
+        rec.frames.clear()
     if getattr(w, "env", None) is not None:
         try:
             w.env.close()
         except Exception:
             pass
     return {"lines": lines, "impl": impl, "forests": forests, "forest_ops": forest_ops, "oracle": oracle, "info": info,
-            "wrapped": wrapped, "runtime_inventory": runtime_inv, "read_problems": list(READ_PROBLEMS)}
+            "wrapped": wrapped, "runtime_inventory": runtime_inv, "read_problems": list(READ_PROBLEMS),
+            "frame_windows": frame_windows}
 
 
 # ------------------------------------------------------------------------------------------------- generation
@@ -1774,4 +1798,48 @@ def f9_probe() -> dict:
     out["stamped_with_microseconds"] = int(f.size)
     f.sent_timestamp = datetime(2026, 1, 1, 0, 0, 0, 0)
     out["stamped_on_a_whole_second"] = int(f.size)
+    return out
+
+
+# ------------------------------------------------------------------------------------------------- family "tight-bandwidth flood"
+def flood_family_cases(rng: Rng, thorough: bool = False, inventory=None) -> List[Tuple[str, dict]]:
+    """'The value tested is the value stored': frames are shared mutable objects that GROW while a switch offers them to one port
+    after another (the first NIC that sees a flooded frame stamps `received_timestamp` on it: +24 bytes), so the admission test and
+    the load accounting must both use the size the frame has AT THAT PORT.  For every ordered pair (sender, target) of 3 (thorough:
+    also 4) hosts on one switch — i.e. every choice of which port is first in the flood and whether the accepting NIC is first — and
+    every first exchange (ping = ARP request flooded + ARP reply + ICMP echo and reply; a unicast burst to an unknown MAC; a
+    broadcast burst), a reference run with ample bandwidth MEASURES, per frame object, the smallest and the largest size it had
+    at any send attempt / admission / crossing and the links it was offered to; then each such link in turn gets every bandwidth in
+    [smallest - 2, largest + 2] bytes (quick: every third value from a seeded offset, plus the six values around both ends; frames
+    that did not grow: size - 1, size, size + 1), all other links ample.  The oracles are the rig's own: bytes that crossed (measured
+    at crossing time) against the bandwidth, load after every send, load0 + size-at-crossing <= bandwidth."""
+    out: List[Tuple[str, dict]] = []
+    off = rng.below(3)
+    for nh in ((3, 4) if thorough else (3,)):
+        hosts = [f"h{j}" for j in range(nh)]
+        pairs = [(a, b) for a in hosts for b in hosts if a != b]
+        for pi, (a, b) in enumerate(pairs):
+            exchanges = [("ping", [["tick"], ["ping", a, b, 1]])]
+            if thorough or pi % 3 == off:
+                exchanges.append(("unknown-unicast", [["tick"], ["burst", a, b, 0, 1]]))
+            if thorough or pi % 3 == (off + 1) % 3:
+                exchanges.append(("broadcast", [["tick"], ["burst", a, "bcast", 0, 1]]))
+            for xname, ops in exchanges:
+                topo = {"kind": "switch", "hosts": nh, "bw": [100.0] * nh, "ftp": False, "flood_family": xname}
+                ref = run_impl({"topo": topo, "ops": ops}, inventory)
+                for k in range(nh):
+                    vals = set()
+                    for kk, lo, hi in ref["frame_windows"]:
+                        if kk != k:
+                            continue
+                        if hi > lo:
+                            full = range(lo - 2, hi + 3)
+                            vals |= set(full) if thorough else ({v for v in full if (v - lo) % 3 == off}
+                                                                | {lo - 1, lo, lo + 1, hi - 1, hi, hi + 1})
+                        else:
+                            vals |= {lo - 1, lo, lo + 1}
+                    for v in sorted(vals):
+                        bw = [100.0] * nh
+                        bw[k] = v / UNIT
+                        out.append((f"flood:{nh}:{a}>{b}:{xname}:link{k}={v}", {"topo": dict(topo, bw=bw), "ops": ops}))
     return out
